@@ -29,6 +29,8 @@ def demo_info(d):
     place = m.group(1)
     m = re.search(r"-run\s+'?([^'\s]+)'?", txt)
     run = m.group(1)
+    if " -race" in txt:
+        run = run + "' -race -run '" + run  # the demonstration needs the race detector (spliced into the quoted -run argument)
     return place, run
 
 
